@@ -155,7 +155,8 @@ def run(repo, rep, tier):
   if tv is not None:
     t = norm(rd.expand(tv, tv.ast.value, keep=('metric_data', 'metric_col'))[0])
     rep.check_term(t == 'metric_data.loc[metric_data[self.df_names.group] == self.groups.treatment, metric_col].reset_index(drop=True)', t, ('metric_data', 'metric_col'), 'R1/column-algebra',
-              'observed series = treatment rows of the metric', f.qualname, 'treat_vec = ' + t[:120], 'the observed series is `%s`' % t[:100], f.loc(tv.ast))
+              'observed series = treatment rows of the metric', f.qualname, 'treat_vec = ' + t[:120], 'the observed series is `%s`' % t[:100], f.loc(tv.ast),
+              want='metric_data.loc[metric_data[self.df_names.group] == self.groups.treatment, metric_col].reset_index(drop=True)')
   # pointwise bounds: pre-period residuals followed by first differences of the cumulative quantiles of ONE distribution
   dist = None
   for bound, qarg in (('lower', 'tail_probability'), ('upper', '1 - tail_probability')):
@@ -165,7 +166,7 @@ def run(repo, rep, tier):
       continue
     d = defs[-1]
     t = norm(rd.expand(d.node, d.value, keep=('delta_metric', 'pointwise_difference', 'test_start_date', 'tail_probability'), depth=3)[0])
-    pat = r"np\.concatenate\(\(pointwise_difference\.loc\[pointwise_difference\['date'\] < test_start_date, 'metric'\]\.values, np\.diff\((\w+)\.ppf\(%s\), prepend=0\)\)\)" % re.escape(qarg)
+    pat = r"np\.concatenate\(\(pointwise_difference\.loc\[pointwise_difference\['date'\] < test_start_date, 'metric'\]\.to_numpy\(\), np\.diff\((\w+)\.ppf\(%s\), prepend=0\)\)\)" % re.escape(qarg)
     m = re.fullmatch(pat, t)
     rep.check_term(m is not None, rd.expand(d.node, d.value, keep=('delta_metric', 'pointwise_difference', 'test_start_date', 'tail_probability'))[0],
                    ('delta_metric', 'pointwise_difference', 'test_start_date', 'tail_probability', mname), 'R2/same-distribution', 'pointwise %s = [pre-period residuals, first differences of the cumulative %s quantile]' % (bound, qarg), f.qualname,
@@ -203,10 +204,11 @@ def run(repo, rep, tier):
   et = mtext(rd.expand(un, cu['estimate'], keep=(mname, 'periods', 'test_start_date', 'cooldown_end_date'), depth=4)[0]) if 'estimate' in cu else ''
   want = cn_.ctext("np.cumsum(metric_df.causal_effect(periods)).reset_index().rename(columns={0: 'metric'}).loc[np.cumsum(metric_df.causal_effect(periods)).reset_index().rename(columns={0: 'metric'})['date'].between(test_start_date, cooldown_end_date), 'metric']")
   rep.check_term(et == want, et, ('metric_df', 'periods', 'test_start_date', 'cooldown_end_date'), 'R2/same-distribution', 'cumulative estimate = cumsum of the causal effect restricted to experiment dates', f.qualname, 'estimate = ' + et[:200],
-            'the cumulative estimate is `%s`' % et[:180], f.loc(un.ast))
+            'the cumulative estimate is `%s`' % et[:180], f.loc(un.ast), want=want)
   pe = mtext(rd.expand(pn, pw['estimate'], keep=(mname, 'periods'), depth=4)[0])
   rep.check_term(pe == "metric_df.causal_effect(periods).reset_index().rename(columns={0: 'metric'})['metric']", pe, ('metric_df', 'periods'), 'R2/same-distribution',
-            'pointwise estimate = causal effect over pre, test and cooldown periods', f.qualname, 'estimate = ' + pe[:140], 'the pointwise estimate is `%s`' % pe[:120], f.loc(pn.ast))
+            'pointwise estimate = causal effect over pre, test and cooldown periods', f.qualname, 'estimate = ' + pe[:140], 'the pointwise estimate is `%s`' % pe[:120], f.loc(pn.ast),
+            want="metric_df.causal_effect(periods).reset_index().rename(columns={0: 'metric'})['metric']")
   # fixed-cost branch
   cn2, cf2 = pick('counterfactual_df', False)
   pn2, pw2 = pick('pointwise_difference_df', False)
